@@ -164,7 +164,8 @@ Inductive cti_ans :=
 | CaRList (r : res (list N))
 | CaBool (b : bool)
 | CaRBool (r : res bool)
-| CaMap (r : res (list (N * list N))).
+| CaMap (r : res (list (N * list N)))
+| CaTrap.
 
 Definition cti_answer (s : cti_state) (q : cti_query) : cti_ans :=
   match q with
@@ -184,5 +185,6 @@ Definition cti_ans_eqb (a b : cti_ans) : bool :=
   | CaBool x, CaBool y => Bool.eqb x y
   | CaRBool x, CaRBool y => res_eqb Bool.eqb x y
   | CaMap x, CaMap y => res_eqb (list_eqb (pair_eqb N.eqb (list_eqb N.eqb))) x y
+  | CaTrap, CaTrap => true
   | _, _ => false
   end.
